@@ -1,3 +1,76 @@
 import KsiVerif.Util.DriverMain
-open KsiVerif
-def main : IO Unit := runDriver (fun i _ => "skip no-model-yet " ++ i)
+import KsiVerif.Model.VerifyPolicy
+import KsiVerif.Model.Sha
+import KsiVerif.Gen.Policies
+/-! Model driver for C01 / C02 — protocol in harness/exec_c01.c. -/
+open KsiVerif KsiVerif.Template KsiVerif.Verify KsiVerif.Policy
+
+def Hreal : HashChain.HashFn := fun algo d => (Sha.hashById algo).map (· d)
+def cfg : Cfg := { derOK := fun _ => false }
+
+def resNum : Res → Nat
+  | .ok => 0 | .na => 1 | .fail => 2
+
+def policyOf (n : String) : Option (Option (List Rule)) :=
+  if n == "internal" then some Gen.policy_internal else none
+
+/-- `KSI_SignatureVerifier_verify(policy, ctx, &result)` followed by `KSI_Signature_verifyWithPolicy` -/
+def runVerify (pol : Option (List Rule)) (s : Sig) (x : VCtx) : String :=
+  let v := verifyWith Hreal pol s x
+  let a : Nat := apiStatus x v
+  match v.status, v.final with
+  | 0, some (r, e) => s!"V0:{resNum r}:{e} A{a}"
+  | st, _ => s!"V{st}:-:- A{a}"
+
+/-- What the generator (which built the signature with hashlib, sharing no code with the library or the
+model) says must come out: `none` = no independent expectation for this label. -/
+def expect (label : String) (out : String) : Option String :=
+  let v := (words out).headD "?"
+  let parsed := !v.startsWith "P"
+  let code (r : Nat) (c : Nat) := s!"V0:{r}:{c}"
+  if label == "consistent" then (if v == "V0:0:0" then none else some "consistent-signature-not-OK")
+  else if v == "V0:0:0" then
+    (if label.startsWith "INT-" || label.startsWith "GEN-" then some s!"violated-{label}-reported-OK" else none)
+  else if !parsed then none
+  else
+    let want : Option (List String) :=
+      if label == "GEN-01" then some [code 2 0x101]
+      else if label == "GEN-03" then some [code 2 0x103]
+      else if label == "GEN-04" then some [code 2 0x104]
+      else if label.startsWith "INT-" then
+        match ((label.drop 4).take 2).toString.toNat? with
+        | some n => if n == 5 then some [code 2 (0x200 + n), code 1 (0x200 + n)] else some [code 2 (0x200 + n)]
+        | none => none
+      else none
+    match want with
+    | some ws => if ws.contains v then none else some s!"{label}-reported-as-{v}"
+    | none => none
+
+def handle (inp out : String) : String :=
+  match words inp with
+  | "v" :: pol :: sigHex :: doc :: level :: rest =>
+    let label := rest.headD "-"
+    match expect label out with
+    | some why => s!"specfail v:{pol}:{label} {why}"
+    | none =>
+    match policyOf pol, ofHex sigHex, level.toNat? with
+    | some p, some raw, some lv =>
+      let docH := if doc == "-" then none else ofHex doc
+      match parseSignature cfg raw with
+      | .error e => let ms := s!"P{e}"; if ms == out then s!"ok v:{pol}:P" else s!"diff v:{pol}:P model={ms}"
+      | .ok vs =>
+        let s := Sig.ofVals cfg.tabs vs
+        let ms := runVerify p s ⟨docH, lv⟩
+        let cls := s!"v:{pol}:{((words out).headD "?")}"
+        -- chains with index lists of equal length are ordered by an unstable sort in the library: then only
+        -- the kind of verdict (OK / NA / FAIL) is compared, not which condition was met first
+        let lens := s.chains.map (·.index.length)
+        let tie := lens.eraseDups.length != lens.length
+        let kind (t : String) := ((words t).map fun w => ":".intercalate ((w.splitOn ":").take 2))
+        if ms == out then s!"ok {cls}"
+        else if tie && kind ms == kind out then s!"ok {cls}:tie"
+        else s!"diff {cls} model={ms}"
+    | _, _, _ => "skip bad-args"
+  | _ => "skip unknown-op"
+
+def main : IO Unit := runDriver handle
